@@ -115,7 +115,11 @@ func famFile(tw *traceWriter, r *rand.Rand, n int) {
 			continue
 		}
 		normalize(c.Schema)
-		tw.emitCase(c, "", true)
+		tag := ""
+		if strings.HasPrefix(c.ID, "row") {
+			tag = "c04" // rows of the C04 decision table (spec/Tab_C04.tla)
+		}
+		tw.emitCase(c, tag, true)
 	}
 }
 
